@@ -63,6 +63,40 @@ def run(ctx):
                         f"for an integer-typed quaternion (np.array([1, 0, 0, 0])) the store truncates silently and the map is no longer the algebraic one", f"{rel_}:{st.lineno}")
             if not outs:
                 rep.ok("C01.R6", f"{rel_}:{s_.name}", f"{len(bufs)} buffer(s) typed by an argument, none receives a fractional store" if bufs else "no buffer typed by an argument")
+    rep.rule("C01.R7", "the rotation kernel is stateless: no function of math/rotations.py or math/algebra.py writes module-level state (a remembered last evaluation is keyed by a caller's array)", 10)
+    for mod_, rel_ in ((rot, ROT), (alg, ALG)):
+        glob = {}
+        for st_ in mod_.tree.body:
+            if isinstance(st_, ast.Assign):
+                for t_ in st_.targets:
+                    if isinstance(t_, ast.Name):
+                        glob[t_.id] = st_
+        for f_ in [x for x in mod_.tree.body if isinstance(x, ast.FunctionDef)]:
+            alias_ = {}
+            for w_ in ast.walk(f_):
+                if isinstance(w_, ast.Assign) and len(w_.targets) == 1 and isinstance(w_.targets[0], ast.Name) and isinstance(w_.value, ast.Name) and w_.value.id in glob:
+                    alias_[w_.targets[0].id] = w_.value.id
+            hits_ = []
+            for w_ in ast.walk(f_):
+                if isinstance(w_, ast.Global):
+                    hits_.append((w_, w_.names[0]))
+                tg_ = w_.targets if isinstance(w_, ast.Assign) else ([w_.target] if isinstance(w_, ast.AugAssign) else [])
+                for t_ in tg_:
+                    b_ = t_
+                    while isinstance(b_, (ast.Subscript, ast.Attribute)):
+                        b_ = b_.value
+                    if isinstance(b_, ast.Name) and not isinstance(t_, ast.Name) and (b_.id in glob or b_.id in alias_):
+                        hits_.append((w_, alias_.get(b_.id, b_.id)))
+                if isinstance(w_, ast.Call) and isinstance(w_.func, ast.Attribute) and w_.func.attr in ("update", "append", "extend", "setdefault", "pop", "clear", "add") \
+                        and isinstance(w_.func.value, ast.Name) and (w_.func.value.id in glob or w_.func.value.id in alias_):
+                    hits_.append((w_, alias_.get(w_.func.value.id, w_.func.value.id)))
+            if hits_:
+                w_, g_ = hits_[0]
+                rep.bad("C01.R7", f"{rel_}:{f_.name}", w_, f"`{norm_src(w_)[:70]}` writes the module-level object `{g_}`: the map then depends on earlier calls; a remembered evaluation whose key is the "
+                        "caller's array object compares that memory with itself after an in-place update (P *= 3, P[:] = ...) and hands back the derivative of the OLD quaternion",
+                        f"{rel_}:{w_.lineno}")
+            else:
+                rep.ok("C01.R7", f"{rel_}:{f_.name}", "writes no module-level state")
     fns = {}
     for mod in (alg, rot):
         for s in mod.tree.body:
@@ -334,4 +368,9 @@ NEUTRAL += [
     dict(id="c01-n-r6", canary=True, what="T_SO3_inv_quat assembled in a float/complex-safe buffer", file=ROT,
          old="    return np.vstack((-p, p0 * eye3 + ax2skew(p))) / 2\n",
          new="    T_inv = np.empty((4, 3), dtype=np.common_type(P))\n    T_inv[0] = -0.5 * p\n    T_inv[1:] = 0.5 * (p0 * eye3 + ax2skew(p))\n    return T_inv\n"),
+]
+MUTANTS += [
+    dict(id="c01-r7-seed", canary=True, what="[seeded by sub-agent] Exp_SO3_quat_P remembers its last evaluation in a module-level dict keyed by the caller's array", file=ROT,
+         edits=[(ROT, "def Exp_SO3_quat_P(P, normalize=True):\n", "_LAST = {\"P\": None, \"R\": None}\n\n\ndef Exp_SO3_quat_P(P, normalize=True):\n    if _LAST[\"P\"] is not None and np.array_equal(P, _LAST[\"P\"]):\n        return _LAST[\"R\"].copy()\n    _LAST[\"P\"] = P\n")],
+         expect="C01.R7"),
 ]
